@@ -1,7 +1,7 @@
 """C10 - map_ runs one isolated instance per key and mirrors the key set (per key-epoch standalone model)."""
 from __future__ import annotations
 import copy, json
-from .runner import Result, Violation
+from .runner import Result, Violation, scaled
 from .gen_core import ProgGen, UID, gen_script
 from .gen_coll import parse_dumps, write_log
 from .prog import Case, S
@@ -260,7 +260,7 @@ def check_nested_map(case, tr):
 
 
 def generate(rng, tier, seed):
-    n = 200 if tier == "quick" else 3000
+    n = scaled(200 if tier == "quick" else 3000)
     cases = [gen_case10(rng, f"c10_{seed}_{k}", k) for k in range(n)]
     cases += [gen_nested_map_case(rng, f"c10n_{seed}_{k}") for k in range(n // 5)]
     # failure isolation between keys: the keyed-map fault pairs of C15 (fault-free twin + per-key captured faults)
